@@ -178,7 +178,7 @@ fn main() {
     let mut rng = Rng::new(seed, 0xC07_0001);
 
     // ---- (a) corpus files x readers x fragmentations x scripts
-    let files = corpus(seed, 0xC07, if thorough { 64 } else { 16 }, false, "g");
+    let files = corpus(seed, 0xC07, if thorough { 160 } else { 16 }, false, "g");
     for f in &files {
         f.emit();
         bump(&format!("files.channels.{}", f.ch), 1);
@@ -234,7 +234,7 @@ fn main() {
     }
 
     // ---- (b) small files: every split point of the source
-    let small = corpus(seed, 0xC07_5, if thorough { 12 } else { 3 }, true, "s");
+    let small = corpus(seed, 0xC07_5, if thorough { 30 } else { 3 }, true, "s");
     for f in &small {
         f.emit();
         bump("small_files", 1);
